@@ -5,7 +5,7 @@ From Coq Require Import List NArith Lia Bool PeanoNat.
 From Coq Require Import ZifyBool ZifyN ZifyNat.
 From Minimq Require Import Bytes Varint Utf8 Props Ser De Reader Spec Arena Core Show Machine Parse Run Util Lts Refine
   VarintProofs SerLemmas CodecProofs BrokerProofs ArenaLemmas ArenaOps Inv Quota Status Persist Frames Limits Reach WireInv Chunking Wire Measure
-  Terminate KeepAlive ConnectOk PingQuiet Healthy Owed Sends Pings Framing Liveness PingAt PollReads Exchange Exchange3.
+  Terminate KeepAlive ConnectOk PingQuiet Healthy Owed Sends Pings Framing Liveness PingAt PollReads Exchange Exchange2 Exchange3.
 Import ListNotations.
 Local Open Scope N_scope.
 Local Opaque u16_be.
@@ -336,4 +336,425 @@ Proof.
     split; [exact V|]. split; [exists []; reflexivity|]. split; [exact B11|].
     split; [intros id; apply ex_pub_fits; exact Cp|].
     intros; exact I.
+Qed.
+
+(* ---------------------------------------------------------------- SUBSCRIBE / UNSUBSCRIBE exchanges lead from idle to idle *)
+(* the part common to both: the freshly retained request is drained, the broker answers with a six byte acknowledgement that
+   names its identifier, the next poll() takes it and leaves the session idle, window and arena as they were *)
+Lemma enqueued_exchange_idle : forall f w s2 e bs h rl rest hd p pid cap0 off0 (enc : N -> sres),
+  Idle w -> WInv s2 -> pid < 65536 ->
+  enc cap0 = SOk off0 bs ->
+  ob_ctl (s_ob s2) = [] -> ob_rel (s_ob s2) = [] -> ob_ret (s_ob s2) = [e] ->
+  re_pid e = pid -> sliceN (re_off e) (re_len e) (ob_buf (s_ob s2)) = bs -> re_st e = SWrite 0 ->
+  pframe (w_sess w) s2 -> s_rt s2 = s_rt (w_sess w) -> s_reader s2 = s_reader (w_sess w) ->
+  lenN (ob_buf (s_ob s2)) = lenN (ob_buf (s_ob (w_sess w))) ->
+  bs = h :: rl ++ u16_be pid ++ rest -> varint_write (lenN (u16_be pid ++ rest)) = Some rl ->
+  broker_reply 1 bs = hd :: [4] ++ u16_be pid ++ [0; 0] ->
+  from_buffer (hd :: [4] ++ u16_be pid ++ [0; 0]) = Some p ->
+  (forall s, ob_ret (s_ob s) = [sent_entry e] ->
+     handle_packet s p = (set_ob s (compact {| ob_buf := ob_buf (s_ob s); ob_used := ob_used (s_ob s); ob_ctl := ob_ctl (s_ob s); ob_ret := []; ob_rel := ob_rel (s_ob s) |}), HOk false)) ->
+  exists w3 w4,
+    flush_outbound (S (S f)) (upd_sess w s2) = (w3, ODone tt) /\ w_wire w3 = w_wire w ++ bs /\
+    op_poll FUEL w3 = (w4, ODone None) /\ w_wire w4 = w_wire w3 /\ w_now w4 = w_now w /\
+    has_retained (s_ob (w_sess w4)) pid = false /\
+    s_rt (w_sess w4) = s_rt (w_sess w) /\ ob_cap (s_ob (w_sess w4)) = ob_cap (s_ob (w_sess w)) /\
+    Idle w4.
+Proof.
+  intros f w s2 e bs h rl rest hd p pid cap0 off0 enc
+         [Hcw [Ec [El [Er [Hka [Hnp [Hpt [Hbr [Htx [Hiq [Hla [Hrd [Hrp Hcap]]]]]]]]]]]]] I2 Hid Hb Ec2 El2 Er2 Epid Ebs Est Hpf Hrt2 Hrd2 Hlen2 Elay Hrl Hrep Hdec Hh.
+  pose proof Hcw as [Hs [Hl [I [Hmps [_ [HB HF]]]]]].
+  assert (Hq : PQ w) by (split; [unfold should_queue_pingreq; rewrite Hpt, Hnp; reflexivity|apply calm_nil; exact Hs]).
+  set (w2 := upd_sess w s2).
+  assert (Hc2 : Hc w2).
+  { unfold Hc. cbn [w2 w_script w_live w_sess w_now upd_sess]. rewrite Hrt2.
+    split; [exact Hs|]. split; [exact Hl|]. split; [exact I2|]. split; [exact Hmps|].
+    split; [rewrite Hpt; intros d E; discriminate E|]. split; [rewrite Hlen2; exact HB|].
+    unfold Fr. rewrite Ec2, El2, Er2. repeat split; try constructor; [rewrite Est; reflexivity|constructor]. }
+  assert (Q2 : PQ w2) by (split; [cbn [w2 w_sess w_now upd_sess]; rewrite (pframe_sq _ _ Hpf); exact (proj1 Hq)|apply calm_nil; exact Hs]).
+  destruct (drain_single_retained_rt f w2 e bs h rl (u16_be pid ++ rest) (hd :: [4] ++ u16_be pid ++ [0; 0])
+              Hc2 Q2 Ec2 El2 Er2 Est Ebs Elay Hrl Hrep ltac:(discriminate)
+              ltac:(cbn [w2 w_sess upd_sess]; rewrite Hrt2; exact Hka) ltac:(cbn [w2 w_sess upd_sess]; rewrite Hrt2; exact Hpt)
+              Hbr Htx Hiq Hla)
+    as [w3 [E3 [Hw3 [Hi3 [Hc3 [R3 [N3 [Np3 [Pt3 [Ec3 [El3 [Er3 [_ [Br3 [Tx3 [La3 [Rt3 Bu3]]]]]]]]]]]]]]]]].
+  cbn [w2 w_sess w_wire w_now upd_sess] in Hw3, N3, La3, Rt3, Bu3, R3.
+  pose proof Hc3 as [Hs3 [Hl3 [I3 [Mps3 _]]]].
+  assert (Ka3 : rt_ka_ms (s_rt (w_sess w3)) = 0).
+  { rewrite Rt3. cbn [note_outbound_activity rt_with_timers rt_ka_ms]. rewrite Hrt2. exact Hka. }
+  assert (K3 : rcap (rd w3) = rcap (rd w)) by (unfold rd; rewrite R3, Hrd2; reflexivity).
+  assert (H2 : rdata (rd w3) = []) by (unfold rd; rewrite R3, Hrd2; exact Hrd).
+  assert (H3 : rplen (rd w3) = None) by (unfold rd; rewrite R3, Hrd2; exact Hrp).
+  assert (H5 : next_step (s_ob (w_sess w3)) = None) by (eapply single_sent_no_step; eassumption).
+  set (s3 := set_reader (w_sess w3) (reader_reset (rd w3))).
+  assert (Er3' : ob_ret (s_ob s3) = [sent_entry e]) by exact Er3.
+  pose proof (Hh s3 Er3') as Hh3.
+  set (s4 := set_ob s3 (compact {| ob_buf := ob_buf (s_ob s3); ob_used := ob_used (s_ob s3); ob_ctl := ob_ctl (s_ob s3); ob_ret := []; ob_rel := ob_rel (s_ob s3) |})) in *.
+  assert (Eo4 : s_ob s4 = compact {| ob_buf := ob_buf (s_ob (w_sess w3)); ob_used := ob_used (s_ob (w_sess w3)); ob_ctl := []; ob_ret := []; ob_rel := [] |}).
+  { unfold s4. cbn [s_ob set_ob]. unfold s3. cbn [set_reader s_ob]. rewrite Ec3, El3. reflexivity. }
+  assert (Hn4 : next_step (s_ob s4) = None) by (rewrite Eo4; reflexivity).
+  assert (Hbody : lenN (u16_be pid ++ [0; 0]) = 4) by (rewrite lenN_app, lenN_u16; reflexivity).
+  assert (Hrl4 : varint_write (lenN (u16_be pid ++ [0; 0])) = Some [4]) by (rewrite Hbody; reflexivity).
+  assert (Hlen : lenN (hd :: [4] ++ u16_be pid ++ [0; 0]) = 6) by (cbn [app]; rewrite !lenN_cons, Hbody; reflexivity).
+  destruct (poll_handles_arrived_full w3 hd [4] (u16_be pid ++ [0; 0]) (w_now w) p s4 Hrl4)
+    as [w4 [E4 [S4 [L4 [Q4 [N4 [C4 [W4 B4]]]]]]]]; try assumption.
+  - rewrite Hlen, K3. exact Hcap.
+  - rewrite Hlen. lia.
+  - rewrite N3. apply N.le_refl.
+  - exists w3, w4. split; [exact E3|]. split; [exact Hw3|]. split; [exact E4|]. split; [exact W4|].
+    split; [rewrite N4; exact N3|].
+    split; [rewrite S4, Eo4; reflexivity|].
+    split; [rewrite S4; unfold s4, s3; cbn [set_ob set_reader s_rt]; rewrite Rt3, Hrt2;
+            unfold note_outbound_activity, keepalive_send_interval; rewrite Hka, Hpt; cbn [N.eqb];
+            destruct (s_rt (w_sess w)) as [a1 a2 a3 a4 a5 a6 a7 a8] eqn:Ert; cbn [rt_with_timers rt_ping_timeout] in *;
+            cbn [rt_next_ping rt_ping_timeout] in Hnp, Hpt; rewrite Hnp, Hpt; reflexivity|].
+    split; [rewrite S4, Eo4; unfold ob_cap; cbn [compact compact_go ob_buf]; rewrite Bu3; exact Hlen2|].
+    assert (A1 : w_now w <= w_now w3) by (rewrite N3; apply N.le_refl).
+    assert (A2 : 6 <= rcap (rd w3)) by (rewrite K3; exact Hcap).
+    assert (A3 : sstep s3 (LPacket (ack_type_ok s3 p)) s4).
+    { replace s4 with (fst (handle_packet s3 p)) by (rewrite Hh3; reflexivity). apply SS_packet. }
+    assert (A4 : s_reader s4 = reader_reset (rd w3)) by reflexivity.
+    assert (A5 : rt_mps (s_rt s4) = None) by exact Mps3.
+    assert (A6 : rt_ka_ms (s_rt s4) = 0) by exact Ka3.
+    assert (A7 : rt_next_ping (s_rt s4) = None) by exact Np3.
+    assert (A8 : rt_ping_timeout (s_rt s4) = None) by exact Pt3.
+    exact (idle_after_ack w3 w4 s4 e (w_now w) Hc3 Ec3 El3 Er3 Ka3 Np3 Pt3 Br3 Tx3 La3 A1 A2 p A3 A4 Eo4 A5 A6 A7 A8 S4 L4 Q4 N4 C4 B4).
+Qed.
+
+Theorem subscribe_exchange_idle : forall w topics ps s2 op,
+  Idle w -> topics <> [] -> props_valid_for (PSlice ps) CtxSubscribe = true ->
+  subscribe_middle (w_sess w) topics ps = (s2, MRetained op) -> op_pid op < 65536 ->
+  exists w1 w2 bs cap off,
+    op_subscribe FUEL topics ps w = (w1, ODone (Some op)) /\
+    enc_subscribe cap {| sq_pid := op_pid op; sq_props := ps; sq_topics := topics |} = SOk off bs /\ w_wire w1 = w_wire w ++ bs /\
+    op_poll FUEL w1 = (w2, ODone None) /\ w_wire w2 = w_wire w1 /\ w_now w2 = w_now w /\
+    has_retained (s_ob (w_sess w2)) (op_pid op) = false /\
+    s_rt (w_sess w2) = s_rt (w_sess w) /\ ob_cap (s_ob (w_sess w2)) = ob_cap (s_ob (w_sess w)) /\
+    Idle w2.
+Proof.
+  intros w topics ps s2 op Hi Hne Hval Hm Hid.
+  pose proof Hi as [Hcw [Ec [El [Er [Hka [Hnp [Hpt _]]]]]]].
+  pose proof Hcw as [Hs [Hl [I _]]].
+  assert (Hq : PQ w) by (split; [unfold should_queue_pingreq; rewrite Hpt, Hnp; reflexivity|apply calm_nil; exact Hs]).
+  pose proof Hm as Hm0. unfold subscribe_middle in Hm.
+  destruct (enqueue_middle_quiescent _ _ _ _ _ (proj1 I) Ec El Er (fun id => enc_subscribe_fits {| sq_pid := id; sq_props := ps; sq_topics := topics |}) Hm)
+    as [bs [cap [off [e [Hb [Ec2 [El2 [Er2 [Epid [Ebs [Est [Hpf [Hrt2 [Hrd2 Hlen2]]]]]]]]]]]]]].
+  destruct (subscribe_layout _ _ _ _ Hb) as [rl [rest [Elay Hrl]]]. cbn [sq_pid] in Elay, Hrl.
+  assert (I2 : WInv s2).
+  { replace s2 with (fst (subscribe_middle (w_sess w) topics ps)) by (rewrite Hm0; reflexivity). eapply WInv_step; [apply SS_subscribe|exact I]. }
+  destruct FUEL_big as [f Hf].
+  destruct (enqueued_exchange_idle (S (S (S f))) w s2 e bs 130 rl rest 144 (RSubAck (op_pid op) [] [0]) (op_pid op) cap off
+              (fun c => enc_subscribe c {| sq_pid := op_pid op; sq_props := ps; sq_topics := topics |})
+              Hi I2 Hid Hb Ec2 El2 Er2 Epid Ebs Est Hpf Hrt2 Hrd2 Hlen2 Elay Hrl
+              ltac:(rewrite Elay; apply broker_reply_sub; exact Hrl) (from_buffer_suback6 _ Hid))
+    as [w3 [w4 [E3 [Hw3 [E4 [Hw4 [N4 [R4 [Rt4 [C4 I4]]]]]]]]]].
+  { intros s Hs0. apply (handle_suback_single RSubAck s e (op_pid op)); [left; reflexivity|exact Hs0|exact Epid]. }
+  assert (E1 : op_subscribe FUEL topics ps w = (w3, ODone (Some op))).
+  { unfold op_subscribe. rewrite Hl. cbn [negb]. destruct topics as [|t0 ts]; [contradiction|]. rewrite Hval. cbn [negb].
+    rewrite Hf. cbn [flush_outbound]. rewrite (pq_no_ping w Hq), upd_sess_id, (quiescent_no_step _ Ec El Er). cbn [bindu].
+    rewrite Hm0. cbn [finish_mid]. rewrite E3. reflexivity. }
+  exists w3, w4, bs, cap, off. repeat (split; [assumption|]). assumption.
+Qed.
+
+Theorem unsubscribe_exchange_idle : forall w topics ps s2 op,
+  Idle w -> topics <> [] -> props_valid_for (PSlice ps) CtxUnsubscribe = true ->
+  unsubscribe_middle (w_sess w) topics ps = (s2, MRetained op) -> op_pid op < 65536 ->
+  exists w1 w2 bs cap off,
+    op_unsubscribe FUEL topics ps w = (w1, ODone (Some op)) /\
+    enc_unsubscribe cap {| uq_pid := op_pid op; uq_props := ps; uq_topics := topics |} = SOk off bs /\ w_wire w1 = w_wire w ++ bs /\
+    op_poll FUEL w1 = (w2, ODone None) /\ w_wire w2 = w_wire w1 /\ w_now w2 = w_now w /\
+    has_retained (s_ob (w_sess w2)) (op_pid op) = false /\
+    s_rt (w_sess w2) = s_rt (w_sess w) /\ ob_cap (s_ob (w_sess w2)) = ob_cap (s_ob (w_sess w)) /\
+    Idle w2.
+Proof.
+  intros w topics ps s2 op Hi Hne Hval Hm Hid.
+  pose proof Hi as [Hcw [Ec [El [Er [Hka [Hnp [Hpt _]]]]]]].
+  pose proof Hcw as [Hs [Hl [I _]]].
+  assert (Hq : PQ w) by (split; [unfold should_queue_pingreq; rewrite Hpt, Hnp; reflexivity|apply calm_nil; exact Hs]).
+  pose proof Hm as Hm0. unfold unsubscribe_middle in Hm.
+  destruct (enqueue_middle_quiescent _ _ _ _ _ (proj1 I) Ec El Er (fun id => enc_unsubscribe_fits {| uq_pid := id; uq_props := ps; uq_topics := topics |}) Hm)
+    as [bs [cap [off [e [Hb [Ec2 [El2 [Er2 [Epid [Ebs [Est [Hpf [Hrt2 [Hrd2 Hlen2]]]]]]]]]]]]]].
+  destruct (unsubscribe_layout _ _ _ _ Hb) as [rl [rest [Elay Hrl]]]. cbn [uq_pid] in Elay, Hrl.
+  assert (I2 : WInv s2).
+  { replace s2 with (fst (unsubscribe_middle (w_sess w) topics ps)) by (rewrite Hm0; reflexivity). eapply WInv_step; [apply SS_unsubscribe|exact I]. }
+  destruct FUEL_big as [f Hf].
+  destruct (enqueued_exchange_idle (S (S (S f))) w s2 e bs 162 rl rest 176 (RUnsubAck (op_pid op) [] [0]) (op_pid op) cap off
+              (fun c => enc_unsubscribe c {| uq_pid := op_pid op; uq_props := ps; uq_topics := topics |})
+              Hi I2 Hid Hb Ec2 El2 Er2 Epid Ebs Est Hpf Hrt2 Hrd2 Hlen2 Elay Hrl
+              ltac:(rewrite Elay; apply broker_reply_unsub; exact Hrl) (from_buffer_unsuback6 _ Hid))
+    as [w3 [w4 [E3 [Hw3 [E4 [Hw4 [N4 [R4 [Rt4 [C4 I4]]]]]]]]]].
+  { intros s Hs0. apply (handle_suback_single RUnsubAck s e (op_pid op)); [right; reflexivity|exact Hs0|exact Epid]. }
+  assert (E1 : op_unsubscribe FUEL topics ps w = (w3, ODone (Some op))).
+  { unfold op_unsubscribe. rewrite Hl. cbn [negb]. destruct topics as [|t0 ts]; [contradiction|]. rewrite Hval. cbn [negb].
+    rewrite Hf. cbn [flush_outbound]. rewrite (pq_no_ping w Hq), upd_sess_id, (quiescent_no_step _ Ec El Er). cbn [bindu].
+    rewrite Hm0. cbn [finish_mid]. rewrite E3. reflexivity. }
+  exists w3, w4, bs, cap, off. repeat (split; [assumption|]). assumption.
+Qed.
+
+(* ---------------------------------------------------------------- a QoS 2 exchange (publish, poll, poll) leads from idle to idle *)
+Lemma idle_after_handled : forall w1 w2 s4 now0 p,
+  Hc w1 -> w_broker w1 = 1 -> w_txbuf w1 = [] -> w_last_arrival w1 = now0 -> now0 <= w_now w1 -> 6 <= rcap (rd w1) ->
+  sstep (set_reader (w_sess w1) (reader_reset (rd w1))) (LPacket (ack_type_ok (set_reader (w_sess w1) (reader_reset (rd w1))) p)) s4 ->
+  s_reader s4 = reader_reset (rd w1) ->
+  ob_ctl (s_ob s4) = [] -> ob_rel (s_ob s4) = [] -> ob_ret (s_ob s4) = [] -> lenN (ob_buf (s_ob s4)) <= BIG ->
+  rt_mps (s_rt s4) = None -> rt_ka_ms (s_rt s4) = 0 -> rt_next_ping (s_rt s4) = None -> rt_ping_timeout (s_rt s4) = None ->
+  w_sess w2 = s4 -> w_live w2 = true -> w_inq w2 = [] -> w_now w2 = w_now w1 -> w_script w2 = [] -> bt w2 = bt w1 ->
+  Idle w2.
+Proof.
+  intros w1 w2 s4 now0 p Hc1 Hbr Htx Hla Hle Hcap Hstep Hrd Ec4 El4 Er4 HB4 Hmps Hka4 Hnp4 Hpt4 S2 L2 Q2 N2 C2 B2.
+  pose proof Hc1 as [_ [_ [I1 _]]].
+  assert (I4 : WInv s4) by (eapply WInv_step; [exact Hstep|]; eapply WInv_step; [apply SS_reader|exact I1]).
+  unfold bt in B2. injection B2 as Bb Bt Bl.
+  unfold Idle, Hc, rd. rewrite S2.
+  split.
+  { split; [exact C2|]. split; [exact L2|]. split; [exact I4|]. split; [exact Hmps|].
+    split; [intros d E; rewrite Hpt4 in E; discriminate E|]. split; [exact HB4|].
+    unfold Fr. rewrite Ec4, El4, Er4. repeat split; constructor. }
+  repeat split; try assumption.
+  - rewrite Bb. exact Hbr.
+  - rewrite Bt. exact Htx.
+  - rewrite Bl, N2, Hla. exact Hle.
+  - rewrite Hrd. reflexivity.
+  - rewrite Hrd. reflexivity.
+  - rewrite Hrd. unfold reader_reset. cbn [rcap]. exact Hcap.
+Qed.
+
+Theorem qos2_exchange_idle : forall w r s2 op ps,
+  Idle w ->
+  publish_middle (w_sess w) true r = (s2, MRetained op) ->
+  effective_qos (w_sess w) (pr_qos r) = Q2 -> pr_props r = PSlice ps -> op_pid op < 65536 ->
+  exists w1 w2 w3 bs cap off,
+    op_publish FUEL r w = (w1, ODone (Some op)) /\
+    enc_publish cap (pub_request r Q2 (op_pid op)) = SOk off bs /\ w_wire w1 = w_wire w ++ bs /\
+    op_poll FUEL w1 = (w2, ODone None) /\ w_wire w2 = w_wire w1 ++ rel_bytes (op_pid op) 0 /\
+    op_poll FUEL w2 = (w3, ODone None) /\ w_wire w3 = w_wire w2 /\ w_now w3 = w_now w /\
+    has_retained (s_ob (w_sess w3)) (op_pid op) = false /\ has_pending_release (s_ob (w_sess w3)) (op_pid op) = false /\
+    rt_quota (s_rt (w_sess w3)) = N.min (N.min (rt_quota (s_rt (w_sess w)) - 1 + 1) 65535) (rt_maxquota (s_rt (w_sess w))) /\
+    rt_maxquota (s_rt (w_sess w3)) = rt_maxquota (s_rt (w_sess w)) /\ rt_quota (s_rt (w_sess w)) <> 0 /\
+    ob_cap (s_ob (w_sess w3)) = ob_cap (s_ob (w_sess w)) /\
+    Idle w3.
+Proof.
+  intros w r s2 op ps [Hcw [Ec [El [Er [Hka [Hnp [Hpt [Hbr [Htx [Hiq [Hla [Hrd [Hrp Hcap]]]]]]]]]]]]] Hm Hq2 Hps Hid.
+  destruct (publish_is_sent_and_answered_rt w r s2 op ps Q2 Hcw Ec El Er Hka Hnp Hpt Hbr Htx Hiq Hla Hm Hq2 ltac:(discriminate) Hps Hid)
+    as [w1 [bs [cap [off [e [E1 [Hb [Hw1 [Hi1 [Hc1 [R1 [N1 [Br1 [Tx1 [La1 [Ka1 [Np1 [Pt1 [Ec1 [El1 [Er1 [Epid [Rt1 Bu1]]]]]]]]]]]]]]]]]]]]]]].
+  destruct (publish_middle_retained_rt _ _ _ _ Hm) as [Rt2 [Hq0 _]].
+  pose proof Hcw as [_ [_ [I0 _]]].
+  destruct (publish_middle_quiescent _ _ _ _ (proj1 I0) Ec El Er Hm) as [_ [_ [_ [_ [_ [_ [_ [_ [_ [_ [_ [_ [_ [_ [_ Hlen2]]]]]]]]]]]]]]].
+  assert (K1 : rcap (rd w1) = rcap (rd w)) by (unfold rd; rewrite R1; reflexivity).
+  assert (H1 : 4 <= rcap (rd w1)) by (rewrite K1; lia).
+  assert (H2 : rdata (rd w1) = []) by (unfold rd; rewrite R1; exact Hrd).
+  assert (H3 : rplen (rd w1) = None) by (unfold rd; rewrite R1; exact Hrp).
+  destruct (poll_pubrec_sends_pubrel_rt w1 (op_pid op) e (w_now w) Hc1 Hid H1 H2 H3 Ec1 El1 Er1 Epid Ka1 Np1 Pt1 Br1 Tx1 Hi1
+              ltac:(rewrite N1; apply N.le_refl) ltac:(rewrite La1, N1; apply N.le_refl))
+    as [w2 [E2 [Hw2 [Hi2 [Hc2 [D2 [P2 [K2 [N2 [Ec2 [Er2 [El2 [Ka2 [Np2 [Pt2 [B2 [T2 [La2 [Qu2 [Mq2 [Bu2 Mp2]]]]]]]]]]]]]]]]]]]]].
+  pose proof Hc2 as [Hs2 [Hl2 [I2 [_ [_ [HB2 _]]]]]].
+  (* the PUBCOMP *)
+  set (pid := op_pid op) in *.
+  assert (Hrl : varint_write (lenN (u16_be pid)) = Some [2]) by (rewrite lenN_u16; reflexivity).
+  assert (Hlen : lenN (112 :: [2] ++ u16_be pid) = 4) by (cbn [app]; rewrite !lenN_cons, lenN_u16; reflexivity).
+  assert (Hn2 : next_step (s_ob (w_sess w2)) = None) by (eapply single_rel_sent_no_step; eassumption).
+  set (s3 := set_reader (w_sess w2) (reader_reset (rd w2))).
+  set (s4 := set_rt (set_ob s3 {| ob_buf := ob_buf (s_ob s3); ob_used := ob_used (s_ob s3); ob_ctl := ob_ctl (s_ob s3); ob_ret := ob_ret (s_ob s3); ob_rel := [] |})
+                    (quota_inc (s_rt s3))).
+  assert (Hh : handle_packet s3 (RPubComp pid 0) = (s4, HOk false)).
+  { cbn [handle_packet]. unfold ack_release. change (ob_rel (s_ob s3)) with (ob_rel (s_ob (w_sess w2))). rewrite El2.
+    cbn [remove_first_rel rel_entry le_pid]. rewrite N.eqb_refl. cbn [negb]. change (rc_success 0) with true. reflexivity. }
+  assert (Ec4 : ob_ctl (s_ob s4) = []) by exact Ec2.
+  assert (El4 : ob_rel (s_ob s4) = []) by reflexivity.
+  assert (Er4 : ob_ret (s_ob s4) = []) by exact Er2.
+  assert (Hn4 : next_step (s_ob s4) = None) by (apply quiescent_no_step; assumption).
+  destruct (poll_handles_arrived_full w2 112 [2] (u16_be pid) (w_now w1) (RPubComp pid 0) s4 Hrl)
+    as [w3 [E3 [S3 [L3 [Q3 [N3 [C3 [W3 B3]]]]]]]]; try assumption.
+  - rewrite Hlen, K2. exact H1.
+  - rewrite Hlen. lia.
+  - rewrite N2. apply N.le_refl.
+  - exact (from_buffer_pubcomp4 pid Hid).
+  - exists w1, w2, w3, bs, cap, off. split; [exact E1|]. split; [exact Hb|]. split; [exact Hw1|]. split; [exact E2|]. split; [exact Hw2|].
+    split; [exact E3|]. split; [exact W3|]. split; [rewrite N3, N2; exact N1|].
+    split; [rewrite S3; unfold has_retained; rewrite Er4; reflexivity|].
+    split; [rewrite S3; unfold has_pending_release; rewrite El4; reflexivity|].
+    split; [rewrite S3; unfold s4; cbn [set_rt s_rt quota_inc rt_with_quota rt_quota rt_maxquota]; unfold s3; cbn [set_reader s_rt];
+            rewrite Qu2, Mq2, Rt1, Rt2; reflexivity|].
+    split; [rewrite S3; unfold s4; cbn [set_rt s_rt quota_inc rt_with_quota rt_maxquota]; unfold s3; cbn [set_reader s_rt];
+            rewrite Mq2, Rt1, Rt2; reflexivity|].
+    split; [exact Hq0|].
+    split; [rewrite S3; unfold ob_cap, s4; cbn [set_rt set_ob s_ob ob_buf]; unfold s3; cbn [set_reader s_ob]; rewrite Bu2, Bu1; exact Hlen2|].
+    assert (A1 : w_now w1 <= w_now w2) by (rewrite N2; apply N.le_refl).
+    assert (A2 : 6 <= rcap (rd w2)) by (rewrite K2, K1; exact Hcap).
+    assert (A3 : sstep s3 (LPacket (ack_type_ok s3 (RPubComp pid 0))) s4).
+    { replace s4 with (fst (handle_packet s3 (RPubComp pid 0))) by (rewrite Hh; reflexivity). apply SS_packet. }
+    assert (A4 : s_reader s4 = reader_reset (rd w2)) by reflexivity.
+    assert (A5 : lenN (ob_buf (s_ob s4)) <= BIG) by exact HB2.
+    assert (A6 : rt_mps (s_rt s4) = None) by exact Mp2.
+    assert (A7 : rt_ka_ms (s_rt s4) = 0) by exact Ka2.
+    assert (A8 : rt_next_ping (s_rt s4) = None) by exact Np2.
+    assert (A9 : rt_ping_timeout (s_rt s4) = None) by exact Pt2.
+    exact (idle_after_handled w2 w3 s4 (w_now w1) (RPubComp pid 0) Hc2 B2 T2 La2 A1 A2 A3 A4 Ec4 El4 Er4 A5 A6 A7 A8 A9 S3 L3 Q3 N3 C3 B3).
+Qed.
+
+(* ---------------------------------------------------------------- histories mixing all four acknowledged operations *)
+Lemma enqueue_accepted_idle : forall s kind enc,
+  ob_ret (s_ob s) = [] -> rt_mps (s_rt s) = None ->
+  (forall id, exists off bs, enc (ob_cap (s_ob s)) id = SOk off bs) ->
+  exists s2 op, enqueue_middle s kind enc = (s2, MRetained op).
+Proof.
+  intros s kind enc Hret Hmps Henc. unfold enqueue_middle.
+  assert (Hfull : retained_full (s_ob s) = false) by (unfold retained_full; rewrite Hret; reflexivity).
+  rewrite Hfull.
+  destruct (next_packet_id s) as [s1 id] eqn:En.
+  pose proof (next_packet_id_ob s) as [Eo Er]. rewrite En in Eo, Er. cbn [fst] in Eo, Er.
+  assert (Hcompact : compact (s_ob s1) = {| ob_buf := ob_buf (s_ob s); ob_used := 0; ob_ctl := ob_ctl (s_ob s); ob_ret := []; ob_rel := ob_rel (s_ob s) |}).
+  { rewrite Eo. unfold compact. rewrite Hret. reflexivity. }
+  destruct (Henc id) as [off [bs Hb]].
+  assert (Hen : encode_at (s_ob s1) (fun cap => enc cap id) =
+                ({| ob_buf := overwrite (ob_buf (s_ob s)) (0 + off) bs; ob_used := 0; ob_ctl := ob_ctl (s_ob s); ob_ret := []; ob_rel := ob_rel (s_ob s) |},
+                 EOk (0 + off) (lenN bs))).
+  { unfold encode_at. rewrite Hcompact. cbn [ob_used ob_cap ob_buf ob_ctl ob_ret ob_rel]. unfold ob_cap in Hb.
+    unfold ob_cap. cbn [ob_buf]. rewrite N.sub_0_r, Hb. reflexivity. }
+  rewrite Hen. cbn [set_ob s_rt]. rewrite Er, Hmps. cbn [too_large]. unfold retain_packet. cbn [ob_ret].
+  change (MAX_RETAINED <=? glen []) with false. cbv iota. eexists. eexists. reflexivity.
+Qed.
+
+Lemma enqueue_middle_pid_ok : forall s kind enc s2 op, Inv s -> enqueue_middle s kind enc = (s2, MRetained op) -> op_pid op < 65536.
+Proof.
+  intros s kind enc s2 op I H. unfold enqueue_middle in H.
+  destruct (retained_full (s_ob s)); [discriminate|].
+  destruct (next_packet_id s) as [s1 id] eqn:En.
+  destruct (next_packet_id_fresh s s1 id (inv_ob _ I) (inv_pid _ I) En) as [[_ Hid] _].
+  destruct (encode_at (s_ob s1) _) as [o1 er]. destruct er as [off len|e]; [|discriminate].
+  destruct (too_large _ _); [discriminate|]. destruct (retain_packet o1 id off len); [|discriminate].
+  inversion H; subst. cbn [op_pid]. lia.
+Qed.
+
+Inductive request :=
+| ReqPublish (r : pub_req)
+| ReqSubscribe (topics : list (bytes * sub_opts)) (ps : list prop)
+| ReqUnsubscribe (topics : list bytes) (ps : list prop).
+
+(* what the application asks of a request: valid, fitting the transmit buffer, and (publishes) QoS 1 or 2 for the session it meets *)
+Definition request_ok (cap : N) (w : world) (q : request) : Prop :=
+  match q with
+  | ReqPublish r =>
+      props_valid_for (pr_props r) CtxPublish = true /\ (exists ps, pr_props r = PSlice ps) /\
+      effective_qos (w_sess w) (pr_qos r) <> Q0 /\
+      (forall id, exists off bs, enc_publish cap (pub_request r (effective_qos (w_sess w) (pr_qos r)) id) = SOk off bs)
+  | ReqSubscribe topics ps =>
+      topics <> [] /\ props_valid_for (PSlice ps) CtxSubscribe = true /\
+      (forall id, exists off bs, enc_subscribe cap {| sq_pid := id; sq_props := ps; sq_topics := topics |} = SOk off bs)
+  | ReqUnsubscribe topics ps =>
+      topics <> [] /\ props_valid_for (PSlice ps) CtxUnsubscribe = true /\
+      (forall id, exists off bs, enc_unsubscribe cap {| uq_pid := id; uq_props := ps; uq_topics := topics |} = SOk off bs)
+  end.
+
+(* one complete exchange: the operation returns its handle, then poll() is called until the handle is complete (twice for QoS 2) *)
+Inductive exchange : world -> request -> op -> world -> Prop :=
+| ex_q1 : forall w r op w1 w2, effective_qos (w_sess w) (pr_qos r) = Q1 ->
+    op_publish FUEL r w = (w1, ODone (Some op)) -> op_poll FUEL w1 = (w2, ODone None) -> exchange w (ReqPublish r) op w2
+| ex_q2 : forall w r op w1 w2 w3, effective_qos (w_sess w) (pr_qos r) = Q2 ->
+    op_publish FUEL r w = (w1, ODone (Some op)) -> op_poll FUEL w1 = (w2, ODone None) -> op_poll FUEL w2 = (w3, ODone None) ->
+    exchange w (ReqPublish r) op w3
+| ex_sub : forall w topics ps op w1 w2,
+    op_subscribe FUEL topics ps w = (w1, ODone (Some op)) -> op_poll FUEL w1 = (w2, ODone None) -> exchange w (ReqSubscribe topics ps) op w2
+| ex_unsub : forall w topics ps op w1 w2,
+    op_unsubscribe FUEL topics ps w = (w1, ODone (Some op)) -> op_poll FUEL w1 = (w2, ODone None) -> exchange w (ReqUnsubscribe topics ps) op w2.
+
+Fixpoint wanted_all (cap : N) (qs : list request) (w : world) : Prop :=
+  match qs with
+  | [] => True
+  | q :: t => request_ok cap w q /\ forall op w2, exchange w q op w2 -> wanted_all cap t w2
+  end.
+
+Inductive history : world -> list request -> world -> Prop :=
+| h_nil : forall w, history w [] w
+| h_cons : forall w q qs op w2 w', exchange w q op w2 ->
+    has_retained (s_ob (w_sess w2)) (op_pid op) = false -> has_pending_release (s_ob (w_sess w2)) (op_pid op) = false ->
+    history w2 qs w' -> history w (q :: qs) w'.
+
+(* one exchange of any kind: from idle (window open) to idle (window as before) *)
+Theorem exchange_idle : forall w q,
+  IdleQ w -> request_ok (ob_cap (s_ob (w_sess w))) w q ->
+  exists op w2, exchange w q op w2 /\
+    has_retained (s_ob (w_sess w2)) (op_pid op) = false /\ has_pending_release (s_ob (w_sess w2)) (op_pid op) = false /\
+    w_now w2 = w_now w /\ ob_cap (s_ob (w_sess w2)) = ob_cap (s_ob (w_sess w)) /\ IdleQ w2.
+Proof.
+  intros w q [Hi [Hq1 [Hq2 [Hq3 Hcap]]]] Hok.
+  pose proof Hi as [Hcw [Ec [El [Er _]]]]. pose proof Hcw as [_ [_ [I0 [Hmps _]]]].
+  assert (Hrel_none : forall w2, Idle w2 -> forall pid, has_pending_release (s_ob (w_sess w2)) pid = false).
+  { intros w2 [_ [_ [El2 _]]] pid. unfold has_pending_release. rewrite El2. reflexivity. }
+  destruct q as [r|topics ps|topics ps]; cbn [request_ok] in Hok.
+  - destruct Hok as [Hv [[ps Hps] [Hne Henc]]].
+    assert (Hq0 : rt_quota (s_rt (w_sess w)) <> 0) by lia.
+    destruct (publish_accepted_idle (w_sess w) r _ Er Hmps Hq0 Hcap Hv eq_refl Hne Henc) as [s2 [op Hm]].
+    destruct (publish_middle_retained_rt _ _ _ _ Hm) as [_ [_ Hid]]. specialize (Hid (proj1 I0)).
+    destruct (effective_qos (w_sess w) (pr_qos r)) eqn:He; [contradiction| |].
+    + destruct (qos1_exchange_idle w r s2 op ps Hi Hm He Hps Hid)
+        as [w1 [w2 [bs [cap [off [E1 [_ [_ [E2 [_ [Hn2 [Hr2 [Hqu [Hmq [_ [Hc2 Hi2]]]]]]]]]]]]]]]].
+      exists op, w2. split; [eapply ex_q1; eassumption|]. split; [exact Hr2|]. split; [apply Hrel_none; exact Hi2|].
+      split; [exact Hn2|]. split; [exact Hc2|]. split; [exact Hi2|]. rewrite Hqu, Hmq, Hc2. repeat split; try assumption; lia.
+    + destruct (qos2_exchange_idle w r s2 op ps Hi Hm He Hps Hid)
+        as [w1 [w2 [w3 [bs [cap [off [E1 [_ [_ [E2 [_ [E3 [_ [Hn3 [Hr3 [Hp3 [Hqu [Hmq [_ [Hc3 Hi3]]]]]]]]]]]]]]]]]]]].
+      exists op, w3. split; [eapply ex_q2; eassumption|]. split; [exact Hr3|]. split; [exact Hp3|].
+      split; [exact Hn3|]. split; [exact Hc3|]. split; [exact Hi3|]. rewrite Hqu, Hmq, Hc3. repeat split; try assumption; lia.
+  - destruct Hok as [Hne [Hv Henc]].
+    destruct (enqueue_accepted_idle (w_sess w) 2 (fun cap id => enc_subscribe cap {| sq_pid := id; sq_props := ps; sq_topics := topics |}) Er Hmps Henc)
+      as [s2 [op Hm]].
+    pose proof (enqueue_middle_pid_ok _ _ _ _ _ (proj1 I0) Hm) as Hid.
+    destruct (subscribe_exchange_idle w topics ps s2 op Hi Hne Hv Hm Hid)
+      as [w1 [w2 [bs [cap [off [E1 [_ [_ [E2 [_ [Hn2 [Hr2 [Hrt [Hc2 Hi2]]]]]]]]]]]]]].
+    exists op, w2. split; [eapply ex_sub; eassumption|]. split; [exact Hr2|]. split; [apply Hrel_none; exact Hi2|].
+    split; [exact Hn2|]. split; [exact Hc2|]. split; [exact Hi2|]. rewrite Hrt, Hc2. repeat split; assumption.
+  - destruct Hok as [Hne [Hv Henc]].
+    destruct (enqueue_accepted_idle (w_sess w) 3 (fun cap id => enc_unsubscribe cap {| uq_pid := id; uq_props := ps; uq_topics := topics |}) Er Hmps Henc)
+      as [s2 [op Hm]].
+    pose proof (enqueue_middle_pid_ok _ _ _ _ _ (proj1 I0) Hm) as Hid.
+    destruct (unsubscribe_exchange_idle w topics ps s2 op Hi Hne Hv Hm Hid)
+      as [w1 [w2 [bs [cap [off [E1 [_ [_ [E2 [_ [Hn2 [Hr2 [Hrt [Hc2 Hi2]]]]]]]]]]]]]].
+    exists op, w2. split; [eapply ex_unsub; eassumption|]. split; [exact Hr2|]. split; [apply Hrel_none; exact Hi2|].
+    split; [exact Hn2|]. split; [exact Hc2|]. split; [exact Hi2|]. rewrite Hrt, Hc2. repeat split; assumption.
+Qed.
+
+(* every history of acknowledged operations, of any length and in any order, completes every one of them *)
+Theorem history_completes : forall qs w,
+  IdleQ w -> wanted_all (ob_cap (s_ob (w_sess w))) qs w ->
+  exists w', history w qs w' /\ IdleQ w' /\ w_now w' = w_now w.
+Proof.
+  induction qs as [|q qs IH]; intros w HI HW.
+  - exists w. split; [constructor|]. split; [exact HI|reflexivity].
+  - cbn [wanted_all] in HW. destruct HW as [Hok Hnext].
+    destruct (exchange_idle w q HI Hok) as [op [w2 [Hex [Hr [Hp [Hn [Hc HI2]]]]]]].
+    specialize (Hnext op w2 Hex). rewrite <- Hc in Hnext.
+    destruct (IH w2 HI2 Hnext) as [w' [Hh [HI' Hn']]].
+    exists w'. split; [econstructor; eassumption|]. split; [exact HI'|]. rewrite Hn'. exact Hn.
+Qed.
+
+Lemma exchange_sub_inv : forall w topics ps op w2, exchange w (ReqSubscribe topics ps) op w2 ->
+  exists w1, op_subscribe FUEL topics ps w = (w1, ODone (Some op)) /\ op_poll FUEL w1 = (w2, ODone None).
+Proof. intros w topics ps op w2 H. inversion H; subst. eexists. split; eassumption. Qed.
+
+(* ---------------------------------------------------------------- the hypotheses are met: a SUBSCRIBE, then a QoS 2 publish *)
+Definition ex_req_sub : request := ReqSubscribe [(ex_filter, ex_so1)] [].
+Definition ex_req_q2 : request := ReqPublish ex_pubq2.
+Definition ex_s1 : world := fst (op_poll FUEL (fst (op_subscribe FUEL [(ex_filter, ex_so1)] [] ex_b1))).
+
+Example mixed_history_hyps_met :
+  IdleQ ex_b1 /\ wanted_all (ob_cap (s_ob (w_sess ex_b1))) [ex_req_sub; ex_req_q2] ex_b1.
+Proof.
+  destruct history_hyps_met as [HI _]. split; [exact HI|].
+  assert (Cp : ob_cap (s_ob (w_sess ex_b1)) = 128) by (vm_compute; reflexivity).
+  assert (V1 : props_valid_for (PSlice []) CtxSubscribe = true) by (vm_compute; reflexivity).
+  assert (V2 : props_valid_for (pr_props ex_pubq2) CtxPublish = true) by (vm_compute; reflexivity).
+  assert (E2 : effective_qos (w_sess ex_s1) (pr_qos ex_pubq2) = Q2) by (vm_compute; reflexivity).
+  assert (F1 : forall id, exists off bs, enc_subscribe (ob_cap (s_ob (w_sess ex_b1))) {| sq_pid := id; sq_props := []; sq_topics := [(ex_filter, ex_so1)] |} = SOk off bs).
+  { intros id. eexists. eexists. vm_compute. reflexivity. }
+  assert (F2 : forall id, exists off bs, enc_publish (ob_cap (s_ob (w_sess ex_b1))) (pub_request ex_pubq2 (effective_qos (w_sess ex_s1) (pr_qos ex_pubq2)) id) = SOk off bs).
+  { intros id. eexists. eexists. vm_compute. reflexivity. }
+  cbn [wanted_all]. split.
+  - cbn [ex_req_sub request_ok]. split; [discriminate|]. split; [exact V1|exact F1].
+  - intros op w2 H. destruct (exchange_sub_inv _ _ _ _ _ H) as [w1 [H1 H2]].
+    assert (W1 : w1 = fst (op_subscribe FUEL [(ex_filter, ex_so1)] [] ex_b1)) by exact (eq_sym (f_equal fst H1)).
+    assert (W2 : w2 = fst (op_poll FUEL w1)) by exact (eq_sym (f_equal fst H2)).
+    assert (W3 : w2 = ex_s1) by (unfold ex_s1; exact (eq_trans W2 (f_equal (fun x => fst (op_poll FUEL x)) W1))).
+    clear H H1 H2 W1 W2. subst w2.
+    split.
+    + cbn [ex_req_q2 request_ok]. split; [exact V2|]. split; [exists []; reflexivity|].
+      split; [intros X; pose proof (eq_trans (eq_sym E2) X) as Y; discriminate Y|exact F2].
+    + intros; exact I.
 Qed.
